@@ -22,7 +22,7 @@ func init() { harness.Register(check{}) }
 func (check) ID() string    { return "C09" }
 func (check) Level() string { return "exploration" }
 func (check) Rule() string {
-	return "key reports are generated from an independent spec table (legacy bytes and C0, ESC-prefixed, SS3, CSI letter / CSI ~ with xterm modifier parameter, CSI 27;m;c~, kitty CSI u with every combination of optional fields) for all 128 ASCII codes, a sample of other scripts and every named key x modifier masks x event types x text payloads, injected through a fake console and read from Events(); decoded fields are compared with the table, and the relational matching oracles (modifier soundness, lock independence, documented shift forgiveness, self-match, cross-protocol equality on the unambiguous chord set) are evaluated over a binding set. A case is one (encoding) or one (key, binding) evaluation; distinct = hash of the encoding / pair"
+	return "key reports are generated from an independent spec table (legacy bytes and C0, ESC-prefixed, SS3, CSI letter / CSI ~ with xterm modifier parameter, CSI 27;m;c~, kitty CSI u with every combination of optional fields, functional keys with and without associated text) for all 128 ASCII codes, a sample of other scripts and every named key x modifier masks x event types x text payloads, injected through a fake console and read from Events(); decoded fields are compared with the table, and the relational matching oracles (modifier soundness, lock independence, documented shift forgiveness, self-match, cross-protocol equality on the unambiguous chord set) are evaluated over a binding set. A case is one (encoding) or one (key, binding) evaluation; distinct = hash of the encoding / pair"
 }
 func (check) Assumptions() []string {
 	return []string{
